@@ -359,6 +359,55 @@ PROPS["C07"] = dict(
     assumptions=["invocation counts stand in for running time"],
 )
 
+def cmp_data(td, imp, model, case):
+    if imp == model:
+        return None
+    if td.get("kind", "").startswith("law"):
+        return "a law of the property fails on the implementation's own answers: " + imp
+    if model == "(err oracle)":
+        return None if (imp.startswith("(ok") or imp.startswith("(err")) else "crash where the model has an uninterpreted call"
+    return "implementation and model answers differ"
+
+
+DATA_GATE = ("From Coq Require Import String Ascii.\nFrom Cel.Model Require Import Json.\n"
+             "From Cel.Proofs Require Import SerdeProofs JsonProofs.\nOpen Scope Z_scope.")
+
+PROPS["C17"] = dict(
+    streams=["C17"],
+    compare=cmp_data,
+    classify=lambda case, model, why: dict(kind="failing-input", why=(case[1][:300] if "kind=law" in case[2] else why)),
+    gate_imports=DATA_GATE,
+    exhaustive=False,
+    rule="a case is a value of the 'any serde type' generator (one constructor per Serializer entry point: every "
+         "integer width, 128-bit, f32/f64, bool, char, str, bytes, none/some, unit, unit struct, the four variant "
+         "kinds, newtype, seq (with/without length hint), tuple, tuple struct, map (serialize_entry and "
+         "serialize_key+serialize_value; keys of supported and unsupported kinds), struct, the Duration and "
+         "Timestamp wrappers; depth <= 5) sent through cel_interpreter::to_value and through serde_json::to_value, "
+         "or a serde_json document sent through to_value; non-trivial always (nt=1): each exercises a Serializer "
+         "method; the commutation law (to_value then Value::json equals serde_json::to_value) is evaluated on the "
+         "implementation's answers for JSON-representable data, and export-after-import on every JSON document",
+    trusted_extra=["serde_json's own serializer is modelled (json_direct), not verified; float map keys, 128-bit integers and "
+                   "chrono's textual form of a timestamp used as a map key are uninterpreted (oracle) in the model",
+                   "chrono's Serialize/FromStr for DateTime (the Timestamp wrapper travels as RFC 3339 text with the offset "
+                   "rounded to the minute) is modelled, not verified"],
+)
+
+PROPS["C18"] = dict(
+    streams=["C18"],
+    compare=cmp_data,
+    classify=lambda case, model, why: dict(kind="failing-input", why=(case[1][:300] if "kind=law" in case[2] else why)),
+    gate_imports=DATA_GATE,
+    exhaustive=False,
+    rule="a case is a CEL value (the C02/C09 boundary value set alone and nested in a list and a map; maps with "
+         "text-colliding keys; a recursive generator of depth <= 5 with functions inside collections, durations on "
+         "both sides of 2^63 ns, NaN/inf, empty collections, int/uint/bool/string keys rendering to the same text) "
+         "sent through Value::json, the model being told the iteration order of the implementation's hash maps; "
+         "the totality law (Ok exactly when no function / oversized duration occurs) and the import-after-export "
+         "law (JSON-native values, text-distinct keys) are evaluated on the implementation's answers",
+    trusted_extra=["base64 (crate) and chrono::DateTime::to_rfc3339 are modelled, not verified; both are compared with the "
+                   "model's base64 / rfc3339 on every case that contains bytes / a timestamp"],
+)
+
 PROPS["C19"] = dict(
     streams=["C19"],
     compare=cmp_laws,
